@@ -8,10 +8,11 @@ CONSTANTS
   PruneBatch = 2
   L2PerPrune = 2
   MinAge = TRUE
-  MaxSteps = 7
+  MaxSteps = 8
   EnableRevert = TRUE
   EnableInterrupts = TRUE
   FixPruneAtomicFloor = TRUE
+  FixSampleOnReorg = TRUE
 INIT Init
 NEXT Next
 VIEW view
